@@ -136,4 +136,5 @@ const (
 	tokADD = token.ADD
 	tokSUB = token.SUB
 	tokAND = token.AND
+	tokREM = token.REM
 )
